@@ -35,6 +35,10 @@ pub enum Present {
     /// context of `256*a + r` bytes together with a signature forged (t1 = 0 base) for exactly the string a
     /// verifier that wraps the length byte would hash: the reference rejects (ctx too long)
     AliasLongCtx(u16),
+    /// signature made valid for the INTERNAL interface (M' = message) but presented to the external verifier
+    InternalSigToExternal,
+    /// the formatted input M' of the original tuple presented as the message, with an empty context, pure mode
+    FormattedAsMessage,
 }
 
 #[derive(Clone, Debug, Hash, Serialize, Deserialize)]
@@ -62,6 +66,8 @@ fn present() -> impl Strategy<Value = Present> {
         1 => gen::message(300).prop_map(Present::OtherMsg),
         1 => Just(Present::Internal),
         2 => any::<u16>().prop_map(Present::AliasLongCtx),
+        1 => Just(Present::InternalSigToExternal),
+        1 => Just(Present::FormattedAsMessage),
     ]
 }
 
@@ -128,6 +134,14 @@ fn present_tuple(p: &rf::Params, t: &Tuple, pr: &Present) -> (Tuple, bool) {
         Present::OtherMsg(m) => t.m = m.bytes(),
         Present::Internal => internal = true,
         Present::AliasLongCtx(n) => t.ctx = alias_ctx(*n, &t.ctx),
+        Present::InternalSigToExternal => {}
+        Present::FormattedAsMessage => {
+            if t.ctx.len() <= 255 {
+                t.m = rf::format_message(t.mode, &t.m, &t.ctx);
+                t.ctx = vec![];
+                t.mode = Mode::Pure;
+            }
+        }
     }
     (t, internal)
 }
@@ -205,7 +219,7 @@ pub fn check(c: &Case, st: &mut Stats) -> CheckResult {
         }
         let mut rehashed = false;
         if mu.rehash && b.forged {
-            let r = if matches!(mu.present, Present::Internal) { sigs::rehash_t1_zero_internal(&p, &b.tuple, &sig) } else { sigs::rehash_t1_zero(&p, &b.tuple, &sig) };
+            let r = if matches!(mu.present, Present::Internal | Present::InternalSigToExternal) { sigs::rehash_t1_zero_internal(&p, &b.tuple, &sig) } else { sigs::rehash_t1_zero(&p, &b.tuple, &sig) };
             if let Some(s) = r {
                 sig = s;
                 rehashed = true;
